@@ -14,7 +14,13 @@ for d in seeded/*/; do
     echo -e "$s\tdoes-not-apply\t-" | tee -a $out; continue
   fi
   git -C $WT apply /verif/$d/patch.diff
-  r=$(VERIF_REPO=$WT VERIF_NO_EVIDENCE=1 timeout 1500 ./check $id 2>&1); rc=$?
+  # the checks that caught it when it was made (its own property's check, or a neighbour's for cross-layer changes)
+  cks=$(/venv/bin/python -c "import json,sys; m=json.load(open('/verif/$d/meta.json')); print(' '.join(m.get('caught_by') or ['$id']))")
+  rc=0; r=""
+  for c in $cks; do
+    r=$(VERIF_REPO=$WT VERIF_NO_EVIDENCE=1 timeout 1500 ./check $c 2>&1); rc=$?
+    [ $rc -eq 1 ] && break
+  done
   git -C $WT checkout -q -- .
   echo -e "$s\tapplies\texit=$rc\t$(echo "$r" | grep -m1 'what:' | cut -c1-160)" | tee -a $out
 done
